@@ -106,8 +106,7 @@ Definition check_case (c : case) : bool :=
       && list_eqb inv_eqb (rev (log (base s))) o_log
   | CRe bh ops o_cache o_log o_cbs =>
       let s := re_final bh ops in
-      negb (rbad s)
-      && list_eqb (pair_eqb key_eqb entry_eqb) (rcache s) o_cache
+      list_eqb (pair_eqb key_eqb entry_eqb) (rcache s) o_cache
       && list_eqb rinv_eqb (re_visible s) o_log
       && forallb (fun x => list_eqb Nat.eqb (rcbs s (fst (fst x)) (snd (fst x))) (snd x)) o_cbs
   end.
@@ -121,10 +120,10 @@ Definition model_result (c : case) : list (key * entry) * list inv :=
       let s := conc_final d imp regs progs steps in (cache (base s), rev (log (base s)))
   | CRe _ _ _ _ _ => ([], [])
   end.
-Definition model_re (c : case) : bool * list (key * entry) * list rinv :=
+Definition model_re (c : case) : list (key * entry) * list rinv :=
   match c with
-  | CRe bh ops _ _ _ => let s := re_final bh ops in (rbad s, rcache s, re_visible s)
-  | _ => (false, [], [])
+  | CRe bh ops _ _ _ => let s := re_final bh ops in (rcache s, re_visible s)
+  | _ => ([], [])
   end.
 Definition model_conc (c : case) : bool * list (nat * nat * obsv) * rxpc :=
   match c with
